@@ -289,6 +289,20 @@ func checkC09(c Node) Verdict {
 			return fail("noerror", "ExecReader(doc, "+fmt.Sprintf("%q", bad)+")", append(sig, "again"), "evaluation %d of a selector whose last step indexes beyond any array returned %s", i+1, Canon(g))
 		}
 	}
+	// indices and range bounds no Go int holds, directly on the case's value (an array in most documents): outside any
+	// array, so an error - never a value, never a panic
+	for _, idx := range []string{"[18446744073709551615]", "[9223372036854775808]", "[(9223372036854775808:2)]", "[(0:18446744073709551615)]",
+		"[each:18446744073709551615]", "[keep=>9223372036854775808]", "[18446744073709551616]", "[(18446744073709551615:end)]"} {
+		t := "a" + idx
+		g, e, p := execReader(doc, t)
+		v.Execs++
+		if p != nil {
+			return fail("panic", "ExecReader(doc, "+fmt.Sprintf("%q", t)+")", append(sig, "hugeindex"), "panic: %v", p)
+		}
+		if e == nil {
+			return fail("noerror", "ExecReader(doc, "+fmt.Sprintf("%q", t)+")", append(sig, "hugeindex"), "an index beyond any array returned %s", Canon(g))
+		}
+	}
 	if !Equal(doc, pristine) {
 		return fail("docmut", v.SQL, sig, "the document was modified: %s", Canon(doc))
 	}
